@@ -162,7 +162,8 @@ func (d *Database) NewIterator(prefix []byte, withUpperBound bool) (db.Iterator,
 	)
 
 	for k := range d.db {
-		if strings.HasPrefix(k, pr) && (!withUpperBound || k < ub) {
+		// A prefix without an upper bound (all bytes 0xff, or empty) leaves the range open-ended.
+		if strings.HasPrefix(k, pr) && (!withUpperBound || upperBound == nil || k < ub) {
 			keys = append(keys, k)
 		}
 	}
